@@ -210,6 +210,22 @@ SOLO_COMPOSITES = [
     L("allof_prop_enum", {"allOf": [obj({"name": STR, "k": {"type": "string", "enum": ["a", "b"]}}, ["name"]), obj({"k": {"type": "string", "enum": ["b", "c"]}})]}),
     L("allof_prop_obj", {"allOf": [obj({"name": STR, "o": obj({"x": INT})}, ["name"]), obj({"o": obj({"y": STR}, ["y"])})]}),
     L("allof_prop_array", {"allOf": [obj({"name": STR, "v": {"type": "array", "items": INT}}, ["name"]), obj({"v": {"type": "array", "minItems": 1}})]}),
+    # one shape per remaining arm of convert_schema_object (type-less validation, $ref with siblings, type lists, boolean member schemas, ...)
+    L("obj_notype", {"properties": {"a": INT}, "required": ["a"]}, ff=False, enf=False),
+    L("arr_notype", {"items": INT}, ff=False, enf=False),
+    L("ref_with_type", {"$ref": "#/definitions/XObj", "type": "object"}, defs={"XObj": obj({"s": STR, "n": INT}, ["s"])}, enf=True),
+    L("ref_with_desc", {"$ref": "#/definitions/XObj", "description": "a described reference"}, defs={"XObj": obj({"s": STR, "n": INT}, ["s"])}, enf=True),
+    L("all_types", {"type": ["null", "boolean", "object", "array", "number", "string", "integer"]}, enf=False),
+    L("type_single_list", {"type": ["string"]}, enf=True, strish=True),
+    L("multi_type_val", {"type": ["string", "integer"], "maxLength": 2, "minimum": 0}, enf=False),
+    L("type_obj_str", {"type": ["object", "string"], "properties": {"a": INT}, "required": ["a"]}, enf=True),
+    L("type_null_obj", {"type": ["object", "null"], "properties": {"a": INT}, "required": ["a"]}, enf=True),
+    L("type_null_arr", {"type": ["array", "null"], "items": INT}, enf=True),
+    L("enum_str_fmt", {"type": "string", "format": "uuid", "enum": ["a", "b"]}, enf=False, strish=True),   # typify ignores the format of an enumerated string: not a represented constraint
+    L("str_unkfmt_max2", {"type": "string", "format": "hostname", "maxLength": 2}, enf=True, strish=True),
+    L("map_minprops", {"type": "object", "additionalProperties": INT, "minProperties": 1}, enf=False),
+    L("struct_bool_props", obj({"a": True, "b": False, "c": INT}, ["a"]), enf=False),
+    L("titled_inline", obj({"p": dict(obj({"x": INT}), title="Titled One"), "q": dict(obj({"y": INT}), title="titled_two")}), enf=True),
     # typed non-string enum over an object: a constrained newtype around an inner struct
     L("obj_enum", {"type": "object", "properties": {"label": STR}, "enum": [{"label": "a"}, {"label": "b"}]}, enf=True),
     L("untagged_arr_tuple", {"anyOf": [{"type": "array", "items": INT, "maxItems": 1},
